@@ -345,6 +345,43 @@ static int load_exceptions(const char *path)
 	return 0;
 }
 
+/* ---------------- independent reference reading of a signature ---------------- */
+/* "MCV" | "MCV(" type name { "," type name } ")" | "MCV+(" ... ")": returns the number of arguments, -1 if not of
+ * that form; fills type index (order of enum ev_arg_type), size and name.  Written independently of ev_spec.c. */
+static const struct { const char *name; int type; size_t size; } ref_types[] = {
+	{ "u8", U8, 1 }, { "u16", U16, 2 }, { "u32", U32, 4 }, { "u64", U64, 8 },
+	{ "i8", I8, 1 }, { "i16", I16, 2 }, { "i32", I32, 4 }, { "i64", I64, 8 }, { "str", STR, 0 },
+};
+struct ref_arg { int type; size_t size; char name[64]; };
+static int ref_parse(const char *sig, int *jumbo, struct ref_arg *args, int maxargs)
+{
+	size_t n = strlen(sig);
+	if (n < 3) return -1;
+	const char *p = sig + 3;
+	*jumbo = 0;
+	if (*p == '+') { *jumbo = 1; p++; }
+	if (*p == 0) return *jumbo ? -1 : 0;
+	if (*p != '(' || sig[n - 1] != ')') return -1;
+	p++;
+	int na = 0;
+	while (1) {
+		char ty[16], nm[64]; int used = 0;
+		if (sscanf(p, " %15[a-z0-9] %63[A-Za-z0-9_] %n", ty, nm, &used) != 2 || used == 0) return -1;
+		if (na >= maxargs) return -1;
+		int k, found = -1;
+		for (k = 0; k < 9; k++) if (strcmp(ty, ref_types[k].name) == 0) found = k;
+		if (found < 0) return -1;
+		args[na].type = ref_types[found].type; args[na].size = ref_types[found].size;
+		snprintf(args[na].name, sizeof(args[na].name), "%s", nm);
+		na++;
+		p += used;
+		if (*p == ',') { p++; continue; }
+		if (*p == ')' && p[1] == 0) break;
+		return -1;
+	}
+	return na;
+}
+
 int main(int argc, char **argv)
 {
 	if (argc < 2) { fprintf(stderr, "usage: %s c18_exceptions.txt [--dump]\n", argv[0]); return 2; }
@@ -402,6 +439,13 @@ int main(int argc, char **argv)
 				off += s->args[k].size;
 			}
 			if (s->payload_size != off) bad = 1;
+			{	/* the independent reading of the signature text agrees: kind, number, types, sizes, names */
+				struct ref_arg ra[MAX_ARGS + 1]; int rj = 0;
+				int rn = ref_parse(sig, &rj, ra, MAX_ARGS + 1);
+				if (rn != s->nargs || rj != s->is_jumbo) bad = 1;
+				for (int k = 0; !bad && k < rn; k++)
+					if ((int) s->args[k].type != ra[k].type || s->args[k].size != ra[k].size || strcmp(s->args[k].name, ra[k].name) != 0) bad = 1;
+			}
 			if (!s->is_jumbo && s->payload_size > 16) bad = 1;                /* normal events carry at most 16 bytes */
 			if (!s->is_jumbo && s->payload_size == 1) bad = 1;                /* a 1-byte payload cannot be encoded */
 			if (s->description != model_evlist[i].description || s->description == NULL) bad = 1;
@@ -413,7 +457,7 @@ int main(int argc, char **argv)
 		}
 	}
 	obl("evlist_wellformed", wf_bad == 0, "%d declarations: the real model_register/model_evspec_init returns 0; every signature compiled by the real ev_spec_compile; "
-			"model character '%c'; no duplicate MCV; offsets cumulative, payload_size = sum of sizes (+4 jumbo), <= 16 bytes unless jumbo; str only as last jumbo argument; %d bad %s",
+			"model character '%c'; no duplicate MCV; argument types, sizes and names equal an independent reading of the signature text; offsets cumulative, payload_size = sum of sizes (+4 jumbo), <= 16 bytes unless jumbo; str only as last jumbo argument; %d bad %s",
 			nlisted, model_id, wf_bad, first);
 	if (reg != 0) { printf("DONE %d\n", nobl); return 1; }
 
@@ -490,6 +534,73 @@ int main(int argc, char **argv)
 		}
 		obl("exceptions_exact", bad == 0, "%d exception lines of spec/c18_exceptions.txt for this model covering %ld cells: each covered cell is accepted, legacy cells are unlisted; %ld stale %s",
 				nexc_lines, n, bad, first);
+	}
+	/* ---- 6a. model_evspec_init refuses every single-entry corruption of the real catalogue ---- */
+	{
+		long bad = 0, ndup = 0, nmodel = 0, nok = 0; first[0] = 0;
+		int n = nlisted;
+		struct ev_decl *tmp = calloc((size_t) n + 1, sizeof(*tmp));
+		char (*sigbuf)[300] = calloc((size_t) n, 300);
+		struct model_spec ms = MSPEC;
+		ms.evlist = tmp; ms.evspec = NULL;
+		struct model_evspec es;
+#define TRY_INIT() (model_evspec_init(&es, &ms) == 0 ? (free(es.alloc), 0) : (free(es.alloc), -1))
+		for (int i = 0; i < n; i++) tmp[i] = model_evlist[i];
+		if (TRY_INIT() != 0) { if (!bad++) snprintf(first, sizeof(first), "the unmodified copy is refused"); } else nok++;
+		for (int i = 0; i < n; i++) tmp[i] = model_evlist[n - 1 - i];      /* order does not matter */
+		if (TRY_INIT() != 0) { if (!bad++) snprintf(first, sizeof(first), "the reversed copy is refused"); } else nok++;
+		for (int i = 0; i < n; i++) tmp[i] = model_evlist[i];
+		for (int j = 0; j < n; j++) {
+			/* entry j takes the code of entry i (its own argument list kept) */
+			for (int i = 0; i < n; i++) {
+				if (i == j) continue;
+				snprintf(sigbuf[j], 300, "%.3s%s", model_evlist[i].signature, model_evlist[j].signature + 3);
+				tmp[j].signature = sigbuf[j];
+				ndup++;
+				if (TRY_INIT() == 0 && !bad++) snprintf(first, sizeof(first), "first offender: duplicate %.3s (entries %d and %d) accepted", sigbuf[j], i, j);
+			}
+			/* entry j takes another model character */
+			for (int b = 1; b < 256; b++) {
+				if (b == (unsigned char) model_id) continue;
+				snprintf(sigbuf[j], 300, "%c%s", b, model_evlist[j].signature + 1);
+				tmp[j].signature = sigbuf[j];
+				nmodel++;
+				if (TRY_INIT() == 0 && !bad++) snprintf(first, sizeof(first), "first offender: entry %d with model byte 0x%02x accepted", j, b);
+			}
+			tmp[j] = model_evlist[j];
+		}
+		free(tmp); free(sigbuf);
+		obl("init_refuses_corrupt", bad == 0 && nok == 2, "the real model_evspec_init on copies of the real catalogue: unmodified and reversed accepted; refused for each of %ld copies where one entry repeats another entry's MCV "
+				"and each of %ld copies where one entry carries another model byte; %ld bad %s", ndup, nmodel, bad, first);
+	}
+	/* ---- 6b. sample malformed signatures (the argument-list grammar is not decided by the CBMC groups) ---- */
+	{
+		static const char *malformed[] = { "", "O", "OA", "O A", "OAr+", "OArx", "OAr()", "OAr(", "OAr+()", "OAr(i32)", "OAr(i32 )", "OAr( i32)", "OAr(x32 a)", "OAr(I32 a)",
+			"OAr(i32 a,u7 b)", "OAr(i32 a, u8)", "OAr(,)", "OAr(i32 a)x", "OAr)i32 a(", "OAr[i32 a]",
+			"OAr(u8 a,u8 b,u8 c,u8 d,u8 e,u8 f,u8 g,u8 h,u8 i,u8 j,u8 k,u8 l,u8 m,u8 n,u8 o,u8 p,u8 q)", NULL };
+		static const struct { const char *sig; int jumbo, nargs; size_t psize; } wellformed[] = {
+			{ "OAr", 0, 0, 0 }, { "OAr(u8 a)", 0, 1, 1 }, { "OAr(i64 v, i32 t)", 0, 2, 12 }, { "VYc+(u32 t, str l)", 1, 2, 8 },
+			{ "OAr(u8 a,u8 b,u8 c,u8 d,u8 e,u8 f,u8 g,u8 h,u8 i,u8 j,u8 k,u8 l,u8 m,u8 n,u8 o,u8 p)", 0, 16, 16 }, { NULL, 0, 0, 0 } };
+		long bad = 0, n = 0; first[0] = 0;
+		for (int i = 0; malformed[i] != NULL; i++) {
+			struct ev_spec sp; struct ev_decl d = { malformed[i], "x" }; n++;
+			if (ev_spec_compile(&sp, &d) == 0 && !bad++) snprintf(first, sizeof(first), "first offender: malformed '%s' compiles", malformed[i]);
+		}
+		for (int i = 0; wellformed[i].sig != NULL; i++) {
+			struct ev_spec sp; struct ev_decl d = { wellformed[i].sig, "x" }; n++;
+			int r = ev_spec_compile(&sp, &d);
+			if ((r != 0 || sp.is_jumbo != wellformed[i].jumbo || sp.nargs != wellformed[i].nargs || sp.payload_size != wellformed[i].psize) && !bad++)
+				snprintf(first, sizeof(first), "first offender: '%s' ret=%d nargs=%d psize=%zu", wellformed[i].sig, r, sp.nargs, sp.payload_size);
+		}
+		/* PINNED leniencies of the real parser (accepted although not of the documented form) */
+		static const char *lenient[] = { "OAr(i32 a", "OAr(i32 a,,u8 b)", "OAr(i32 a extra)", "OAr(i32 a) u8 b", NULL };
+		long nlen = 0;
+		for (int i = 0; lenient[i] != NULL; i++) {
+			struct ev_spec sp; struct ev_decl d = { lenient[i], "x" };
+			if (ev_spec_compile(&sp, &d) == 0) nlen++;
+		}
+		obl("compile_samples", bad == 0, "SAMPLES (not exhaustive): %ld malformed / well-formed signatures refused / compiled to the expected shape by the real ev_spec_compile; %ld of 4 lenient forms "
+				"(missing ')', empty argument, extra word, text after ')') are accepted by the parser (reported, not required); %ld bad %s", n, nlen, bad, first);
 	}
 	/* ---- 6. the handler refuses events of another model ---- */
 	{
